@@ -154,13 +154,21 @@ func xzCases(c *hx.Ctx, seed int64) []xzCase {
 	for _, d := range []int{4096, 4097, 5000, 6144} {
 		for _, b := range []int{273, 4096} {
 			for m := 0; m < 2; m++ {
-				for _, class := range []string{"zeros", "lowentropy", "periodic", "text", "xx", "alternating"} {
+				for _, class := range []string{"zeros", "lowentropy", "periodic", "text", "xx", "alternating", "xx-over"} {
 					ri++
-					if !c.Thorough() && (ri+int(seed))%2 == 0 {
+					if !c.Thorough() && (ri+int(seed))%2 == 0 && class != "xx-over" {
 						continue
 					}
 					n := 3*(d+b+1) + ri%7
-					data := MakeData(class, n, seed+int64(ri))
+					var data []byte
+					if class == "xx-over" {
+						// a repeat at a distance a little beyond the configured capacity (up to the next
+						// representable sizes): an encoder window larger than what is declared would use it
+						x := MakeData("random", d+200+(ri%3)*d/4, seed+int64(ri))
+						data = append(append([]byte{}, x...), x[:400]...)
+					} else {
+						data = MakeData(class, n, seed+int64(ri))
+					}
 					piece := 1 + (ri*997)%(d+b)
 					var parts [][]byte
 					hist := []string{}
